@@ -32,6 +32,7 @@ UNIT_DEFAULT_PROPS["U13"] = ["C17"]
 UNIT_DEFAULT_PROPS["U10b"] = ["C09"]
 UNIT_DEFAULT_PROPS["U17"] = ["C08"]
 UNIT_DEFAULT_PROPS["U18"] = ["C09"]
+UNIT_DEFAULT_PROPS["U19"] = ["C09"]
 UNIT_DEFAULT_PROPS["U15"] = ["C02"]
 
 RUNTIME = ["U6", "U6b", "U7", "U8"] + U9
@@ -45,7 +46,7 @@ RUNTIME_ALL = ["U6", "U6b", "U7", "U8"] + U9 + U16 + ["U17"]
 PROPS = {
     "C01": {"units": ["U2", "U3", "U4", "U15"] + RUNTIME_ALL},
     "C02": {"units": ["U3", "U4", "U15"] + RUNTIME_ALL, "safety_units": ["U6", "U7"]},
-    "C03": {"units": ["U3", "U4", "U15"] + RUNTIME_ALL},
+    "C03": {"units": ["U3", "U4", "U15", "U19"] + RUNTIME_ALL},
     "C14": {"units": ["U4", "U11"], "safety_units": ["U11"]},
     "C15": {"units": RUNTIME_ALL},
     "C04": {"units": ["U3", "U4", "U15"] + RUNTIME_ALL, "safety_units": ["U6", "U6b", "U7"] + U9 + U16},
@@ -53,10 +54,10 @@ PROPS = {
     "C06": {"units": ["U2", "U3", "U4", "U6", "U7", "U8", "U15"]},
     "C07": {"units": ["U10b", "U18"] + RUNTIME_ALL},
     "C08": {"units": ["U10", "U10b"] + RUNTIME_ALL, "safety_units": ["U17"]},
-    "C09": {"units": ["U10", "U10b", "U18"] + RUNTIME_ALL, "safety_units": ["U10", "U10b", "U18"]},
+    "C09": {"units": ["U10", "U10b", "U18", "U19"] + RUNTIME_ALL, "safety_units": ["U10", "U10b", "U18", "U19"]},
     "C20": {"units": RUNTIME_ALL},
     "C10": {"units": RUNTIME_ALL},
-    "C11": {"units": ["U1", "U2", "U3", "U4", "U5"], "safety_units": ["U1", "U2", "U3", "U4", "U5"]},
+    "C11": {"units": ["U1", "U2", "U3", "U4", "U5", "U19"], "safety_units": ["U1", "U2", "U3", "U4", "U5"]},
     "C12": {"units": ["U1", "U2", "U4", "U5", "U12"], "safety_units": ["U12"]},
     "C13": {"units": ["U1", "U4"]},
     "C16": {"units": ["U5"], "safety_units": ["U5"]},
